@@ -249,6 +249,30 @@ func c15BaseUnits(ctx *core.Ctx) []core.Unit {
 					w = bi(0)
 				}
 				chk(r, "Div(z=x=y)", in, z, w)
+				// the quotient just computed is the divisor of the very next division (memoised inverses must
+				// belong to the value, not to the variable)
+				q := dirtyFr()
+				q.Div(&b.e, &z)
+				wq := new(big.Int)
+				if w.Sign() != 0 {
+					wq.Set(b.reg)
+				}
+				chk(r, "Div(y, previous quotient) after Div(z=x=y)", in, q, wq)
+				// receiver = divisor only, then division by that quotient
+				z = b.e
+				z.Div(&a.e, &z)
+				chk(r, "Div(z=y)", in, z, want)
+				q = dirtyFr()
+				q.Div(&a.e, &z)
+				wq = new(big.Int)
+				if want.Sign() != 0 {
+					wq.Mul(a.reg, new(big.Int).ModInverse(want, bigR)).Mod(wq, bigR)
+				}
+				chk(r, "Div(x, previous quotient) after Div(z=y)", in, q, wq)
+				// receiver = dividend only
+				z = a.e
+				z.Div(&z, &b.e)
+				chk(r, "Div(z=x)", in, z, want)
 				x := a.e
 				z = dirtyFr()
 				z.Div(&x, &x)
